@@ -86,6 +86,13 @@ type round struct {
 	approved  []devEntry
 	pending   []devEntry
 	refreshes map[string][]string // issuer -> refresh tokens raced by several goroutines
+
+	cat      []catReq          // error-path / simple requests with per-request markers (extra.go)
+	errBase  map[string]string // "<router>|<request>" -> answer before the round (markers normalised), stable ones only
+	keyList  []jose.JSONWebKey // ONE key list handed to oidc.FindMatchingKey / FindKey by every goroutine
+	keyRef   map[string]string // expected answers on that list
+	ksShared oidc.KeySet       // ONE remote key set over the static JWKS of extra.go
+	ksToks   []ksToken
 }
 
 func (rd *round) caseIdx() int64 { return int64(roundBase + rd.cfg.Round) }
@@ -221,6 +228,31 @@ func newRound(run *ev.Run, r int) *round {
 			}
 		}
 	}
+	// error-path catalogue: answers before the round (twice; only answers that are a pure function of the request count)
+	rd.cat = catalogue()
+	rd.errBase = map[string]string{}
+	for ri, s := range rd.srvs {
+		for _, q := range rd.cat {
+			_, a1 := q.do(s, "mk0x1x")
+			_, a2 := q.do(s, "mk0x2x")
+			if norm(a1, "mk0x1x") == norm(a2, "mk0x2x") {
+				rd.errBase[fmt.Sprintf("%d|%s", ri, q.Name)] = norm(a1, "mk0x1x")
+			}
+		}
+	}
+	// one key list and one remote key set for everybody
+	rd.keyList = sharedKeyList()
+	rd.keyRef = map[string]string{}
+	for _, kc := range keyCases() {
+		for v := 0; v < 2; v++ {
+			rd.keyRef[fmt.Sprintf("%v|%d", kc, v)] = findKeyResult(kc, sharedKeyList(), v)
+		}
+	}
+	rd.w.value("shared.key-list", "C20:mutation:key-list-argument", func() any { return renderKeys(rd.keyList) })
+	var j *jwksServer
+	j, rd.ksToks = keysetFixture()
+	mux.Handle(jwksHost, j)
+	rd.ksShared = rp.NewRemoteKeySet(rd.hcShared, "https://"+jwksHost+"/keys")
 	return rd
 }
 
@@ -237,13 +269,13 @@ type worker struct {
 }
 
 var srvKinds = []string{"s.discovery", "s.keys", "s.code", "s.code", "s.implicit", "s.refresh", "s.userinfo", "s.userinfo", "s.introspect", "s.revoke", "s.end_session",
-	"s.client_credentials", "s.jwt_bearer", "s.token_exchange", "s.device", "s.device_poll_shared", "s.device_poll_shared", "s.device_poll_shared", "s.device_poll_pending", "s.refresh_shared", "s.ready"}
+	"s.client_credentials", "s.jwt_bearer", "s.token_exchange", "s.device", "s.device_poll_shared", "s.device_poll_shared", "s.device_poll_shared", "s.device_poll_pending", "s.refresh_shared", "s.ready", "s.err", "s.err", "s.err", "s.err"}
 
 // constructions of unrelated instances while the shared ones are in use
 var newKinds = []string{"x.new_provider_custom", "x.new_provider_default", "x.new_rp", "x.new_rs_te"}
 
 var cliKinds = []string{"c.code", "c.code", "c.browser", "c.userinfo", "c.userinfo", "c.refresh", "c.endsession", "c.endsession", "c.revoke", "c.revoke", "c.clientcreds",
-	"c.device", "c.introspect", "c.introspect", "c.exchange", "c.ts", "c.verify", "c.discover", "c.discover_front"}
+	"c.device", "c.introspect", "c.introspect", "c.exchange", "c.ts", "c.verify", "c.discover", "c.discover_front", "c.browser", "c.findkey", "c.verify_ks"}
 
 func concMandatory() []string {
 	var out []string
@@ -317,6 +349,22 @@ func (w *worker) srvOp(kind string, ri int) (class string) {
 		resp = s.get("/keys", nil, nil)
 	case "s.ready":
 		resp = s.get([]string{"/ready", "/healthz"}[w.r.IntN(2)], nil, nil)
+	case "s.err":
+		w.seq++
+		q := rd.cat[w.r.IntN(len(rd.cat))]
+		mk := fmt.Sprintf("mk%dx%dx", w.id+1, w.seq)
+		var ans string
+		resp, ans = q.do(s, mk)
+		if resp.Panic == nil {
+			if fm := foreignMarkers(ans, mk); len(fm) > 0 {
+				return fmt.Sprintf("crosstalk: the answer to %s (marker %s) contains data of another request (%s)", q.Name, mk, fm[0])
+			}
+			if want, ok := rd.errBase[fmt.Sprintf("%d|%s", ri, q.Name)]; ok && want != norm(ans, mk) {
+				return fmt.Sprintf("crosstalk: the answer to %s differs from the one the same request got before the round: %q instead of %q", q.Name, clip(norm(ans, mk), 300), clip(want, 300))
+			}
+			rd.run.Distinct("s.err|" + s.name + "|" + q.Name)
+			return "ok"
+		}
 	case "s.code":
 		w.seq++
 		nonce := fmt.Sprintf("n-%d-%d", w.id, w.seq)
@@ -696,6 +744,22 @@ func (w *worker) cliOp(kind string, set *sharedSet) (class string) {
 			d, err = client.Discover(ctxBG, set.issuer, hc)
 			if err == nil && d.Issuer != set.issuer {
 				err = fmt.Errorf("crosstalk: discovered issuer %q for %q", d.Issuer, set.issuer)
+			}
+		case "c.findkey":
+			kcs := keyCases()
+			kc := kcs[w.r.IntN(len(kcs))]
+			v := w.r.IntN(2)
+			if got, want := findKeyResult(kc, rd.keyList, v), rd.keyRef[fmt.Sprintf("%v|%d", kc, v)]; got != want {
+				err = fmt.Errorf("crosstalk: key lookup %v on the shared list answers %q, on a fresh list %q", kc, got, want)
+			}
+		case "c.verify_ks":
+			t := rd.ksToks[w.r.IntN(len(rd.ksToks))]
+			e := verifyKS(rd.ksShared, t.Token)
+			switch {
+			case t.Valid && e != nil:
+				err = fmt.Errorf("crosstalk: token %s no longer verifies on the shared remote key set: %v", t.Name, e)
+			case !t.Valid && e == nil:
+				err = fmt.Errorf("crosstalk: token %s verified on the shared remote key set", t.Name)
 			}
 		case "c.discover_front":
 			hc := rd.hcShared
